@@ -154,6 +154,11 @@ def enabled(ref: RefGroupedList, U, tier):
             yield ["update", [[k, list(m) + [v]]]]
     if len(newv) >= 2:
         yield ["update", [[newv[0], [newv[1], newv[0]]]]]
+    for k, m in ref.g:  # re-partition: a member is split off into a group of its own
+        others = [x for x in m if norm(x) != norm(k)]
+        if others:
+            x = others[0]
+            yield ["update", [[k, [y for y in m if norm(y) != norm(x)]], [x, [x]]]]
     for k in L:
         yield ["remove", k]
     for i in range(len(L)):
